@@ -187,6 +187,11 @@ func (c *Connect) Decode(src []byte) (int, error) {
 			return total, err
 		}
 
+		// check will topic length
+		if len(c.Will.Topic) == 0 {
+			return total, makeError(CONNECT, "will topic is empty")
+		}
+
 		// read will payload
 		c.Will.Payload, n, err = readLPBytes(src[total:], true, CONNECT)
 		total += n
